@@ -22,9 +22,7 @@ mod names {
 	/// Checks if a class name is valid according to JVMS 4.2.1 (also accepting array class names).
 	pub(super) fn is_valid_class_name(x: &JavaStr) -> bool {
 		if x.starts_with('[') {
-			// TODO: max 255 [ are allowed
-			// TODO: must be a field desc
-			true
+			is_valid_arr_class_name(x)
 		} else {
 			// a list of identifiers split by /
 			// each identifier must be an unqualified name
@@ -34,13 +32,8 @@ mod names {
 
 	/// Checks if a class name is a valid array class name according to JVMS 4.2.1
 	pub(super) fn is_valid_arr_class_name(x: &JavaStr) -> bool {
-		if x.starts_with('[') {
-			// TODO: max 255 [ are allowed
-			// TODO: must be a field desc
-			true
-		} else {
-			false
-		}
+		// SAFETY: parse() is what checks the content; at most 255 `[` and a complete field descriptor
+		x.starts_with('[') && unsafe { crate::tree::field::FieldDescriptorSlice::from_inner_unchecked(x) }.parse().is_ok()
 	}
 
 	/// Checks if a class name is a valid object class name according to JVMS 4.2.1
